@@ -160,7 +160,10 @@ class CHECK(core.Check):
             "same conditions as `let me if` entry guard and `go` transition inside an auxiliary framer that is either plain "
             "or a moot framer run as a clone (`aux worker as w1`); clones: a moot framer cloned 2 or 3 times in sequence, "
             "`go hit if` on framer-relative operands (elapsed, recurred, `x of framer`) with different values per "
-            "instance, every instance compared with its own model run. 30% of the random cases of every kind in mode f: "
+            "instance, every instance compared with its own model run; ints beyond 2**53 (neighbouring values, goal direct "
+            "and indirect, mostly WITHOUT a tolerance clause so that the Builder's default tolerance is what reaches "
+            "Need.Check) in 20% of the q-mode condition lists of every script-level kind plus an exhaustive table. "
+            "30% of the random cases of every kind in mode f: "
             "numbers from decimal grids (k/10, k/20, k/100) and random doubles, the state on the computed band edges "
             "goal-|tol|, goal+|tol|, one ulp inside/outside them (math.nextafter) and on decimal neighbours. "
             "Bounded-exhaustive: check over a 13-value set x 7 operators x 3 tolerances (thorough: 17 values x 8 x 5). "
@@ -307,7 +310,7 @@ class CHECK(core.Check):
                 env[str(c["k"])] = self._near(rng, goal, c["tol"]) if rng.random() < 0.8 else goal
         return env
 
-    def _clauses_env(self, rng, mode, nmax, clocks):
+    def _clauses_env(self, rng, mode, nmax, clocks, big=None):
         """1..nmax clauses + env, in the given mode"""
         if mode == "f":
             env = {}
@@ -324,8 +327,43 @@ class CHECK(core.Check):
                     if k >= 2 and str(k) not in env:
                         env[str(k)] = self._val(rng)
             return cs, env
+        if big is None:
+            big = rng.random() < 0.2
+        if big:                                        # ints beyond 2**53, mostly without a tolerance clause; the whole
+            env = {}                                   # list stays all-integer (a float tolerance would round them)
+            cs = [self._bigclause(rng, env) for _ in range(rng.choice([1, 1, 2][:max(1, nmax)]))][:nmax]
+            return cs, env
         cs = [self._clause(rng, clocks=clocks) for _ in range(rng.choice([1, 1, 2, 2, 3][:max(1, nmax + 2)]))][:nmax]
         return cs, self._env(rng, cs)
+
+    BIG = [2 ** 53, 2 ** 63, 1700000000000000000, 10 ** 20]
+
+    def _bigint(self, rng, near=None):
+        """an int beyond 2**53 (not all of them doubles); `near`: a neighbour of that int"""
+        if near is not None:
+            return "i:%d" % (py(near) + rng.choice([0, 0, 0, 1, -1, 2, -2]))
+        return "i:%d" % (rng.choice(self.BIG) + rng.choice([0, 1, 1, 2, 3, -1]))
+
+    def _bigclause(self, rng, env):
+        """`state <op> goal` on ints beyond 2**53; tolerance absent (the Builder's default), an explicit 0 or a
+        small int — all-integer arithmetic, exact in Python"""
+        goal = self._bigint(rng)
+        k = rng.choice([2, 4, 5, 6])
+        if rng.random() < 0.6:
+            g = {"lit": goal}
+        else:
+            gk = rng.choice([x for x in (2, 4, 5, 6) if x != k])
+            g = {"ref": gk}
+            env[str(gk)] = goal
+        env[str(k)] = self._bigint(rng, near=goal)
+        t = rng.random()
+        c = {"neg": rng.random() < 0.3, "kind": "c", "k": k, "cmp": rng.choice(["==", "==", "!=", "!=", "<", "<=", ">=", ">"]),
+             "goal": g, "tol": "i:0"}
+        if t < 0.25:
+            c["showtol"] = True                       # written `+- 0`
+        elif t < 0.4:
+            c["tol"] = rng.choice(["i:1", "i:2", "i:-1"])
+        return c
 
     def _rclause(self, rng):
         """a clause on framer-relative operands (clocks, `x of framer`)"""
@@ -375,6 +413,10 @@ class CHECK(core.Check):
                 if rng.random() < 0.1:
                     g_ = rng.choice(["i:0", "i:1", None, "s:a", True])   # mixed operands
                 cmp_ = rng.choice(["==", "==", "!=", "<", "<=", ">=", ">"])
+            elif rng.random() < 0.08:
+                g_ = self._bigint(rng)
+                s_, t_ = self._bigint(rng, near=g_), rng.choice(["i:0", "i:0", "i:1", True, False])
+                cmp_ = rng.choice(CMPS)
             else:
                 s_, g_, t_ = self._triple(rng)
                 cmp_ = rng.choice(CMPS) if rng.random() < 0.95 else rng.choice(["=", "=>", "is", "", "eq"])
@@ -389,10 +431,11 @@ class CHECK(core.Check):
             yield {"kind": "script", "mode": mode, "clauses": cs, "env": env, "period": "q:1/8", "limit": rng.choice([3, 5])}
         for i in range(n_guard):
             mode = "f" if rng.random() < 0.3 else "q"
-            guard, env1 = self._clauses_env(rng, mode, 2, clocks=False)
+            big = (mode == "q" and rng.random() < 0.2)
+            guard, env1 = self._clauses_env(rng, mode, 2, clocks=False, big=big)
             if rng.random() < 0.15:
                 guard, env1 = [], {}
-            cs, env2 = self._clauses_env(rng, mode, 2, clocks=False)
+            cs, env2 = self._clauses_env(rng, mode, 2, clocks=False, big=big)
             env = dict(env2)
             env.update(env1)                                              # the guard's boundary values win
             if guard and rng.random() < 0.5:                              # make sure negated guards are frequent
@@ -411,6 +454,8 @@ class CHECK(core.Check):
             cmps = CMPS + ["="]
         for s, g, t, c in itertools.product(vals, vals, tols, cmps):
             yield {"kind": "check", "mode": "q", "state": s, "cmp": c, "goal": g, "tol": t}
+        for c in self._big_table(tier):
+            yield c
         # the decimal band-edge table (doubles): every pair state/goal/tol from small decimal sets, == and !=
         decs = [0.1, 0.2, 0.3, 0.4, 0.15, 0.05, 0.25, 0.5, 0.8, 1.1, 1.4]
         tols = [0.1, 0.05, 0.3, 0.25]
@@ -425,6 +470,26 @@ class CHECK(core.Check):
                 for st in sorted(edges):
                     for c in ("==", "!="):
                         yield {"kind": "check", "mode": "f", "state": X(st), "cmp": c, "goal": X(g), "tol": X(t)}
+
+    def _big_table(self, tier):
+        """conditions written without a tolerance clause (and with `+- 0`) on neighbouring ints beyond 2**53,
+        through the Builder: direct and indirect goal, plain and negated, == and !="""
+        bases = [2 ** 53, 1700000000000000000] if tier == "quick" else [2 ** 53, 2 ** 63, 1700000000000000000, 10 ** 20]
+        for B in bases:
+            goal = B + 1
+            for st in (B, B + 1, B + 2):
+                for cmp_ in ("==", "!="):
+                    for neg in (False, True):
+                        for indirect in (False, True):
+                            for showtol in (False, True):
+                                c = {"neg": neg, "kind": "c", "k": 2, "cmp": cmp_, "tol": "i:0",
+                                     "goal": {"ref": 4} if indirect else {"lit": "i:%d" % goal}}
+                                if showtol:
+                                    c["showtol"] = True
+                                env = {"2": "i:%d" % st}
+                                if indirect:
+                                    env["4"] = "i:%d" % goal
+                                yield {"kind": "script", "mode": "q", "clauses": [c], "env": env, "period": "q:1/8", "limit": 1}
 
     # ------------------------------------------------------------------ implementation
     def impl(self, case):
